@@ -446,6 +446,33 @@ def r_conv(ctx):
                                    '%s puts a zero symbol into an empty digit list: the number 0 renders as one digit, so a width of 0 '
                                    'gives a non-empty result and set_vt(strand, 1) returns two symbols' % name,
                                    inputs='the number 0 with width 0 (check length 1)')
+        ZERO_ = (('c', 0), ('c', 'A'), ('c', '0'), ('sub', ('c', ALPHA), ('c', 0)))
+        digit_lists_ = {d2.name for x2 in f.nodes if x2.loops for d2 in x2.defs
+                        if d2.kind == 'mutate' and isinstance(d2.extra, ast.Attribute) and d2.extra.attr in ('append', 'insert')}
+        ret_names_ = {n_.id for r_ in f.stmts(ast.Return) if r_.stmt.value is not None for n_ in ast.walk(r_.stmt.value)
+                      if isinstance(n_, ast.Name)}
+        for nd_ in f.nodes:
+            if nd_.loops or nd_.kind != 'stmt':
+                continue
+            empt_ = any(is_call(x, 'builtins.len') or x == ('list',) or x == ('c', '') for a, p in ctx.conds(f, nd_) for x in walk_term(a))
+            for d in nd_.defs:
+                if d.kind == 'assign' and d.value is not None and (d.name in digit_lists_ or d.name in ret_names_):
+                    t_ = TermBuilder(f, d.node).def_term(d.id)
+                    if empt_ and t_ is not None and (t_ in ZERO_ or (t_[0] == 'list' and len(t_) == 2 and t_[1] in ZERO_)):
+                        run.refute('R-CONV', f, 'zero-renders-as-no-digit', nd_.lineno,
+                                   '%s replaces an empty digit sequence by the zero symbol: the number 0 renders as one digit, so a width of '
+                                   '0 gives a non-empty result and set_vt(strand, 1) returns two symbols' % name,
+                                   inputs='the number 0 with width 0 (check length 1)')
+            for n2, r_, t_ in ctx.root_terms(f):
+                if n2.id != nd_.id:
+                    continue
+                for x in walk_term(t_):
+                    if x[0] == 'bool' and x[1] == 'or' and len(x) == 4 and x[3] in ZERO_ and \
+                            any(y[0] == 'v' and y[1] in digit_lists_ for y in walk_term(x[2])):
+                        run.refute('R-CONV', f, 'zero-renders-as-no-digit', nd_.lineno,
+                                   '%s falls back to the zero symbol when the rendered digits are empty (`... or %s`): the number 0 renders '
+                                   'as one digit, so a width of 0 gives a non-empty result and set_vt(strand, 1) returns two symbols'
+                                   % (name, show(x[3])), inputs='the number 0 with width 0 (check length 1)')
         run.check(len(rs) >= 1 and all(_exc_type(f, r) == 'ValueError' for r in rs), 'R-CONV', f, 'dispatch-else-raises',
                   rs[0].lineno if rs else f.node.lineno, 'unknown type ends in ValueError',
                   '%s does not end its type dispatch with ValueError' % name, nontrivial=False, inputs='neither str nor int')
@@ -933,6 +960,23 @@ def r_repr(ctx):
     run.rule('R-REPR', "accessor_to_latter_map stores under key v the live entries of ACC[v] for exactly the vertices with a "
                        "live entry; accessor_to_adjacency_matrix sets matrix[v][live entries of ACC[v]] = 1 and nothing else")
     K = ctx.kinds
+    # latter_map_to_accessor converts the map AS GIVEN unless a threshold is supplied: remove_useless is not the identity for any
+    # threshold (it also drops arcs into vertices that are not keys), so it may only run under `threshold is not None`
+    h = ctx.p.func('dsw.graphized.latter_map_to_accessor')
+    thr = ('v', 'threshold', 'P')
+    for nd_, c_, callee_, q_ in ctx.calls().get(h.fq, []):
+        if not (q_ and q_.endswith('.remove_useless')):
+            continue
+        cs = ctx.conds(h, nd_)
+        on_request = any(a[0] == 'cmp' and a[2] == thr and a[3] == ('c', None) and
+                         ((a[1] == 'is not' and p_) or (a[1] == 'is' and not p_)) for a, p_ in cs)
+        about = [a for a, p_ in cs if any(x == thr for x in walk_term(a))]
+        _tri(run, on_request, not about, 'R-REPR', h, 'trimmed-only-on-request', nd_.lineno,
+             'remove_useless runs only when a threshold is supplied',
+             'latter_map_to_accessor calls remove_useless whether or not a threshold was supplied: remove_useless also deletes every arc '
+             'whose target is not a key of the map (a vertex without outgoing arcs), so the default conversion loses the arcs into '
+             'dead ends and the round trip accessor -> latter map -> accessor is no longer the identity',
+             inputs='the default threshold with a graph that has a vertex with incoming but no outgoing arcs')
     f = ctx.p.func('dsw.graphized.accessor_to_latter_map')
     n = 0
     for nd in f.nodes:
